@@ -2267,7 +2267,7 @@ func listStyleType_(tokens []Token) (out pr.CounterStyleID, ok bool) {
 	case pa.String:
 		return pr.CounterStyleID{Type: "string", Name: token.Value}, true
 	case pa.FunctionBlock:
-		if token.Name != "symbols" {
+		if utils.AsciiLower(token.Name) != "symbols" {
 			return out, false
 		}
 		functionArguments := pa.RemoveWhitespace(token.Arguments)
@@ -2481,7 +2481,7 @@ func position(tokens []Token, _ string) pr.CssProperty {
 		return nil
 	}
 	token := tokens[0]
-	if fn, ok := token.(pa.FunctionBlock); ok && fn.Name == "running" && len(fn.Arguments) == 1 {
+	if fn, ok := token.(pa.FunctionBlock); ok && utils.AsciiLower(fn.Name) == "running" && len(fn.Arguments) == 1 {
 		if ident, ok := (fn.Arguments)[0].(pa.Ident); ok {
 			return pr.BoolString{Bool: true, String: string(ident.Value)}
 		}
